@@ -413,11 +413,22 @@ def audit_axioms(mod: str, names: list[str]) -> dict[str, list[str]]:
     return final
 
 
-def driver(lines: list[str], timeout=1200) -> list[str]:
+_DRIVER_READY = False
+
+
+def ensure_driver():
+    global _DRIVER_READY
+    if not _DRIVER_READY:
+        rc, out = lake(["build", "GettsimVerif.DriverOps"])
+        if rc != 0:
+            raise RuntimeError("Lean driver does not build:\n" + out[-3000:])
+        _DRIVER_READY = True
+
+
+def driver(lines: list[str], timeout=1200, build=True) -> list[str]:
     """Pipe operations to the Lean model driver; one output line per input line."""
-    rc, out = lake(["build", "GettsimVerif.DriverOps"])
-    if rc != 0:
-        raise RuntimeError("Lean driver does not build:\n" + out[-3000:])
+    if build:
+        ensure_driver()
     p = subprocess.run(["lake", "env", "lean", "--run", "Driver.lean"], cwd=LEAN,
                        input="\n".join(lines) + "\n", capture_output=True, text=True,
                        timeout=timeout)
